@@ -39,7 +39,9 @@ LEVEL = {'text': 'Machine-checked (Coq 8.16, no axioms) theorems over ALL byte l
 RULE = ('cases: synthesized ELF images = class x byte order x e_machine (the 5 table-switching machines, other named, unknown numbers) x '
         'OS ABI x header-table placement (before/after/between bodies, garbage filler and gaps) x entry size standard..+64 x counts 0,1,few '
         '(escape e_shnum=0/PN_XNUM/SHN_XINDEX forced at small counts; true >=0xff00 sections / >=0xffff segments in thorough) x random '
-        'field values incl. unknown and processor-specific type codes x duplicate/empty/non-ASCII/long names; plus malformed variants '
+        'field values incl. unknown and processor-specific type codes x duplicate/empty/non-ASCII/long names; every processor-supplement '
+        'code of Spec/C01Machines.v on its machine (expected name from the Coq spec, kind anchor); real 0xfeff..0x10000-entry tables at the '
+        'boundary values of the three escape rules (kind edge, every run); plus malformed variants '
         '(out-of-domain). distinct = hash(kind, abstract); non-trivial = at least one section or segment')
 
 EM_SPECIAL = [40, 183, 62, 8, 243]            # ARM, AARCH64, X86_64, MIPS, RISCV
@@ -131,6 +133,8 @@ def make_case(rng, opts=None):
             r = rng.random()
             types.append(rng.choice(SHT_PLAIN) if r < 0.45 else rng.choice(SHT_PROC) if r < 0.6
                          else rng.choice(SHT_UNKNOWN) if r < 0.72 else rng.choice(SHT_REQ + [0x70000003]))
+    if 'force_sh_type' in o and n > 1:
+        types[1] = o['force_sh_type']
     reqs = [_req_of(t, machine) for t in types]
     need_strtab = any(q in ('symtab', 'link_strtab', 'dynamic', 'link_symtab', 'hash', 'gnuhash') for q in reqs)
     need_symtab = any(q in ('link_symtab', 'hash', 'gnuhash') for q in reqs)
@@ -282,6 +286,8 @@ def make_case(rng, opts=None):
     for j in range(m):
         r = rng.random()
         pt = rng.choice(PT_POOL)
+        if j == 0 and 'force_p_type' in o:
+            pt = o['force_p_type']
         p_offset = _rand_word(rng, bits)
         if pt == 2 and n > 0 and rng.random() < 0.6:
             dyn = [i for i in range(n) if types[i] == 6]
@@ -349,6 +355,58 @@ def expand_big(a):
     return [[is64, le, ehdr, sections, segments, k], total, seed, [[strtab_at, strbody]]]
 
 
+# (n sections, name-table index k, m segments): every escape rule at its boundary values.
+# 0xfeff / 0xff00 around SHN_LORESERVE (e_shnum, e_shstrndx), 0xfffe / 0xffff around PN_XNUM (e_phnum),
+# and the thresholds of the OTHER rule for each field (e_phnum = 0xff00, k = 0xffff, n = 0xffff).
+EDGES = [(0xfeff, 0xfefe, 0xfeff), (0xff00, 0xfeff, 0xff00), (0xff01, 0xff00, 0xfffe), (0x10000, 0xffff, 0xffff),
+         (0xffff, 0xfffe, 0x10000)]
+EM_NUM = {'EM_ARM': 40, 'EM_AARCH64': 183, 'EM_X86_64': 62, 'EM_MIPS': 8, 'EM_RISCV': 243}
+
+
+def expand_edge(a):
+    """real tables with ~0xff00 entries (2-3 MB each), small field values so that encoding stays cheap"""
+    _, idx, is64, le, seed, extra = a
+    n, k, m = EDGES[idx % len(EDGES)]
+    rng = random.Random(seed)
+    ehsz, shsz, phsz = (64, 64, 56) if is64 else (52, 40, 32)
+    shentsize, phentsize = shsz + extra, phsz + extra
+    strbody = b'\0.n\0.shstrtab\0.dup\0'
+    strtab_at = ehsz + 5
+    e_phoff = strtab_at + len(strbody) + 3
+    e_shoff = e_phoff + m * phentsize + 7
+    total = e_shoff + n * shentsize
+    sections = []
+    for i in range(n):
+        nm, off = (b'', 0) if i == 0 else (b'.shstrtab', 4) if i == k else rng.choice([(b'.n', 1), (b'.dup', 14), (b'n', 2), (b'', 3)])
+        t = 0 if i == 0 else 3 if i == k else rng.choice([1, 1, 8, 7, 12])
+        sections.append([nm, [off, t, rng.getrandbits(6), rng.getrandbits(7), strtab_at if i == k else rng.getrandbits(7),
+                              rng.getrandbits(7), rng.getrandbits(5), rng.getrandbits(5), rng.getrandbits(3), rng.getrandbits(4)]])
+    segments = [[rng.choice([0, 1, 1, 4, 7]), rng.getrandbits(3), rng.getrandbits(7), rng.getrandbits(7),
+                 rng.getrandbits(7), rng.getrandbits(7), rng.getrandbits(7), rng.getrandbits(4)] for _ in range(m)]
+    e_shnum, e_phnum, e_shstrndx = n, m, k
+    if n >= 0xff00:
+        e_shnum = 0
+        sections[0][1][5] = n
+    if m >= 0xffff:
+        e_phnum = 0xffff
+        sections[0][1][7] = m
+    if k >= 0xff00:
+        e_shstrndx = 0xffff
+        sections[0][1][6] = k
+    ehdr = [1, 0, 0, bytes(7), 2, 3, 1, 0, e_phoff, e_shoff, 0, ehsz, phentsize, e_phnum, shentsize, e_shnum, e_shstrndx]
+    return [[is64, le, ehdr, sections, segments, k], total, seed, [[strtab_at, strbody]]]
+
+
+def expand_anchor(a, anchors):
+    """an image of the anchor's machine whose section 1 / segment 0 carries the anchor's code"""
+    _, which, idx, is64, le, seed = a
+    lst = anchors[0 if which == 'sh' else 1]
+    mach, code, name = lst[idx % len(lst)]
+    opts = dict(is64=bool(is64), le=bool(le), machine=EM_NUM.get(mach, 0), n=3, m=2)
+    opts['force_sh_type' if which == 'sh' else 'force_p_type'] = code
+    return make_case(random.Random(seed), opts), (mach, code, name)
+
+
 def gen(ctx):
     rng = ctx.rng
     cases = []
@@ -367,6 +425,13 @@ def gen(ctx):
         a = make_case(rng)
         cases.append(('malformed', a + [rng.choice(['truncate', 'shentsize', 'phentsize', 'class', 'data', 'magic', 'shoff', 'strndx', 'byte']),
                                          rng.getrandbits(32)]))
+    # the codes the processor supplements fix (Spec/C01Machines.v), each on its machine: expected name from the Coq spec
+    for which, cnt in (('sh', 11), ('p', 6)):
+        for idx in range(cnt):
+            cases.append(('anchor', ['anchor', which, idx, rng.getrandbits(1), rng.getrandbits(1), rng.getrandbits(32)]))
+    # extended numbering at the boundary values of every escape rule: real ~0xff00-entry tables
+    for idx in range(len(EDGES)):
+        cases.append(('edge', ['edge', idx, rng.getrandbits(1), rng.getrandbits(1), rng.getrandbits(32), rng.choice([0, 0, 8])]))
     if ctx.tier == 'thorough':
         for which in ('sections', 'segments', 'sections', 'segments'):
             cases.append(('big', make_big(rng, which)))
@@ -437,20 +502,16 @@ def queries_for(a, rng_seed):
     sections, segments = spec[3], spec[4]
     r = random.Random(rng_seed)
     q = [['header'], ['num_sections'], ['num_segments'], ['shstrndx'], ['sections'], ['segments']]
-    if len(sections) > 300:
+    if len(sections) > 300 or len(segments) > 300:
+        # large tables: counts, name-table index and single entries around the boundaries (no full enumeration)
         q = [['header'], ['num_sections'], ['num_segments'], ['shstrndx']]
-        for i in sorted({0, 1, len(sections) - 1, len(sections) - 2, 0xfeff, 0xff00 - 1} | {r.randrange(len(sections)) for _ in range(12)}):
-            if i < len(sections):
+        n, m, k = len(sections), len(segments), spec[5]
+        for i in sorted({0, 1, k, n - 1, n - 2, 0xfeff, 0xff00, 0xffff} | {r.randrange(n) for _ in range(6)}):
+            if 0 <= i < n:
                 q.append(['section', i])
-        for j in range(len(segments)):
-            q.append(['segment', j])
-        return q
-    if len(segments) > 300:
-        q = [['header'], ['num_sections'], ['num_segments'], ['shstrndx'], ['sections']]
-        for j in sorted({0, 1, len(segments) - 1, 0xfffe, 0xffff} | {r.randrange(len(segments)) for _ in range(12)}):
-            if j < len(segments):
+        for j in sorted({0, 1, m - 1, 0xfeff, 0xff00, 0xfffe, 0xffff} | {r.randrange(m) for _ in range(6)}):
+            if 0 <= j < m:
                 q.append(['segment', j])
-        q.append(['iter_segments', 'PT_NOTE'])
         return q
     return q
 
@@ -574,8 +635,16 @@ def evaluate(ctx, cases):
     from elftools.elf.elffile import ELFFile
     drv = ctx.driver
     full = []
-    for kind, a in cases:
-        full.append(expand_big(a) if kind == 'big' else a)
+    anchor_of = {}
+    anchors = None
+    for ci, (kind, a) in enumerate(cases):
+        if kind == 'anchor':
+            if anchors is None:
+                anchors = drv.batch([['anchors']])[0]
+            b, anchor_of[ci] = expand_anchor(a, anchors)
+            full.append(b)
+        else:
+            full.append(expand_big(a) if kind == 'big' else expand_edge(a) if kind == 'edge' else a)
     encs = drv.batch([['encode', a[0]] for a in full])
     imgs = []
     for (kind, a0), a, enc in zip(cases, full, encs):
@@ -590,7 +659,7 @@ def evaluate(ctx, cases):
     q2 = []
     for (kind, a0), a, q, r in zip(cases, full, q1, r1):
         qs = []
-        if kind != 'big':
+        if kind not in ('big', 'edge'):
             rr = random.Random(a[2])
             spec_ans = r[2]
             secs = spec_ans[4][1] if spec_ans[4][0] == 'ok' else []
@@ -608,7 +677,7 @@ def evaluate(ctx, cases):
     r2 = [[0, [], []] for _ in q2]
     for i, g in zip(idx2, got2):
         r2[i] = g
-    for (kind, a0), a, img, qa, ra, qb, rb in zip(cases, full, imgs, q1, r1, q2, r2):
+    for ci, ((kind, a0), a, img, qa, ra, qb, rb) in enumerate(zip(cases, full, imgs, q1, r1, q2, r2)):
         queries = qa + qb
         wf = bool(ra[0])
         model = _canon_names(_strip_pad(ra[1] + rb[1]))
@@ -620,6 +689,21 @@ def evaluate(ctx, cases):
             impl = [['err', type(e).__name__] for _ in queries]
         in_domain = wf and kind != 'malformed'
         sp = a[0]
+        if kind == 'anchor':
+            # pseudo-query: the type of section 1 / segment 0 as reported, against the name the supplement fixes
+            mach, code, name = anchor_of[ci]
+            def pick(ans):
+                try:
+                    if a0[1] == 'sh':
+                        return ['ok', dict((f, v) for f, v in ans[4][1][1][1])['sh_type']]
+                    return ['ok', dict((f, v) for f, v in ans[5][1][0][0])['p_type']]
+                except Exception:       # noqa
+                    return ['err', 'no-answer']
+            queries = queries + [['anchor', mach, code]]
+            impl = impl + [pick(impl)]
+            model = model + [pick(model)]
+            spec = spec + [['ok', name]]
+            in_domain = in_domain and mach in EM_NUM
         ctx.bump('kind', kind)
         ctx.bump('class_order', '%d%s' % (64 if sp[0] else 32, 'LE' if sp[1] else 'BE'))
         ctx.bump('machine', sp[2][5] if sp[2][5] in EM_SPECIAL else 'named' if sp[2][5] in EM_NAMED else 'unknown')
@@ -632,6 +716,8 @@ def evaluate(ctx, cases):
             key = _classify(a, img, impl, spec, queries)
         if not in_domain:
             spec = model       # nothing is claimed outside the domain; impl vs model is reported as drift only
+        if kind in ('edge', 'big'):
+            ctx.bump('edge_counts', '%x/%x/%x' % (len(sp[3]), sp[5], len(sp[4])))
         ctx.record(kind, a0, impl=impl, spec=spec, model=model, in_domain=in_domain,
                    nontrivial=bool(sp[3] or sp[4]), key=key,
                    detail={'wf': wf, 'len': len(img)})
